@@ -17,7 +17,7 @@ import random
 import numpy as np
 
 from .. import fixtures, pool, tlc, tracecheck
-from ..common import seed
+from ..common import inputs_intact, seed, watched_inputs
 
 QS = 16      # spectra (values up to sum|x| ~ 2000)
 QT = 64      # time-domain results
@@ -42,9 +42,10 @@ def job(spec):
 
     def ev(base, fn):
         e = dict({"f": "", "x": [], "y": [0], "q": QT, "m": 0, "nbins": 0, "re": [], "im": [], "parsq": 0, "outq": [], "nhdr": 0}, **base)
+        w = watched_inputs(fn)
         try:
             e.update(fn())
-            e["outcome"] = "ok"
+            e["outcome"] = "ok" if inputs_intact(w) else "raise:InputModified:the call changed an array it was given"
         except Exception as exc:  # noqa: BLE001
             e["outcome"] = f"raise:{type(exc).__name__}:{str(exc)[:70]}"
         evs.append(e)
